@@ -79,3 +79,32 @@ func init() {
 		return sb.String()
 	}
 }
+
+// SexprCalls builds a *fresh* parser for the sexpr grammar and returns calls on it: parsing a document, parsing with
+// a parser derived for the inner production sxList (ParserForProduction, created on first use), and String().
+func SexprCalls() (parse func(in string) (any, error), sub func(in string) (any, error), ebnf func() string) {
+	p := participle.MustBuild[sxDoc](
+		participle.Unquote("String"),
+		participle.Union[sxValue](&sxNum{}, &sxSym{}, &sxStr{}, &sxList{}, &sxQuote{}, &sxPair{}),
+	)
+	parse = func(in string) (any, error) {
+		v, err := p.ParseString("f", in)
+		if v == nil {
+			return nil, err
+		}
+		return v, err
+	}
+	sub = func(in string) (any, error) {
+		sp, err := participle.ParserForProduction[sxList](p)
+		if err != nil {
+			return nil, err
+		}
+		v, err := sp.ParseString("sub", in)
+		if v == nil {
+			return nil, err
+		}
+		return v, err
+	}
+	ebnf = func() string { return p.String() }
+	return
+}
